@@ -46,7 +46,7 @@ def collect(results, prop=PROP):
     violations = []
     for r in results:
         if r.get("status") == "violation":
-            key = common.base_pid(r["job"]) + "|" + str(r.get("kind", "value"))
+            key = common.finding_pid(r["job"]) + "|" + str(r.get("kind", "value"))
             if r.get("kind") == "silent_out_of_bounds_index":
                 # one defect per indexing primitive whose JAX clamp/fill semantics the lowering drops
                 idx = sorted(p for p in (r.get("prims") or []) if p in ("dynamic_slice", "dynamic_update_slice", "gather", "scatter", "scatter-add", "scatter_add"))
